@@ -172,6 +172,28 @@ func isStartPhi(m *Matcher, v ssa.Value) bool {
 	return seen > 0
 }
 
+// setterArms: the message arm(s) in which each session setter is called on the
+// reviewed tree, with the later check that relies on it. A setter that is not
+// listed must be called under exactly one arm.
+var setterArms = map[string]struct {
+	arms []string
+	why  string
+}{
+	"fdo.DISessionState.SetDeviceCertChain":         {[]string{"msg=10"}, "read back by SetHMAC (12) to build the voucher"},
+	"fdo.DISessionState.SetIncompleteVoucherHeader": {[]string{"msg=10"}, "read back by SetHMAC (12) to build the voucher"},
+	"fdo.TO0SessionState.SetTO0SignNonce":           {[]string{"msg=20"}, "compared with the nonce signed in OwnerSign (22)"},
+	"fdo.TO1SessionState.SetTO1ProofNonce":          {[]string{"msg=30"}, "compared with the nonce signed in ProveToRV (32)"},
+	"fdo.TO2SessionState.SetGUID":                   {[]string{"msg=60"}, "selects the voucher in every later message"},
+	"fdo.TO2SessionState.SetProveDeviceNonce":       {[]string{"msg=60"}, "compared with the nonce signed in ProveDevice (64) and sent in Done (70)"},
+	"fdo.TO2SessionState.SetXSession":               {[]string{"msg=60", "msg=64"}, "created with the owner's parameter in 60 and completed with the device's parameter in 64"},
+	"fdo.TO2SessionState.SetSetupDeviceNonce":       {[]string{"msg=64"}, "returned in Done2 (71)"},
+	"fdo.TO2SessionState.SetReplacementGUID":        {[]string{"msg=64"}, "read back by Done (70) to build the replacement voucher"},
+	"fdo.TO2SessionState.SetRvInfo":                 {[]string{"msg=64"}, "read back by Done (70) to build the replacement voucher"},
+	"fdo.TO2SessionState.SetMTU":                    {[]string{"msg=66"}, "its presence is what lets DeviceServiceInfo (68) run the owner modules"},
+	"fdo.TO2SessionState.SetReplacementHmac":        {[]string{"msg=66"}, "its presence selects voucher replacement over credential reuse in Done (70)"},
+	"fdo.TO2SessionState.SetDevmod":                 {[]string{"msg=68"}, "devmod is received in DeviceServiceInfo"},
+}
+
 func checkC08(c *Ctx, p *Prog, r *Result) {
 	rs := c08Rules(p)
 	get := func(n string) *ssa.Function {
@@ -218,6 +240,77 @@ func checkC08(c *Ctx, p *Prog, r *Result) {
 		})
 		r.requireAtSites(f, rule, sites, e.req)
 	}
+	// session setters are sequencing evidence: a later message is accepted
+	// because an earlier handler stored something. Every setter of the session
+	// state interfaces is therefore called under exactly one message arm, the
+	// same at all of its call sites.
+	r.rule("C08.session-setter-arm", "every Set* method of the per-protocol session state interfaces is called, in the region of its protocol's Respond, under exactly one message arm (msg=N), the same at all of its call sites: what a handler stores is the evidence that its message arrived (e.g. the MTU is stored by message 66 only, so that 68 cannot be accepted without it)")
+	r.floor("C08.session-setter-arm", 8)
+	{
+		if root := get("fdo.TO1Server.Respond"); root != nil && flows["fdo.TO1Server.Respond"] == nil {
+			flows["fdo.TO1Server.Respond"] = NewFlow(p, rs, []*ssa.Function{root}, nil)
+		}
+		var roots []string
+		for rn := range flows {
+			roots = append(roots, rn)
+		}
+		sort.Strings(roots)
+		for _, rn := range roots {
+			f := flows[rn]
+			arms := map[string]map[string]bool{}
+			pos := map[string]string{}
+			sites := f.CallSites(func(cal Callee, call ssa.CallInstruction) bool {
+				i := strings.LastIndex(cal.Name, ".")
+				if i <= 0 || !strings.HasSuffix(cal.Name[:i], "SessionState") || !strings.HasPrefix(cal.Name, "fdo.") || !strings.HasPrefix(cal.Name[i+1:], "Set") || !strings.HasPrefix(p.FuncName(call.Parent()), "fdo.") {
+					return false
+				}
+				// a setter returns only an error (SetupDeviceNonce is a getter)
+				sig := call.Common().Signature()
+				return sig != nil && sig.Results().Len() == 1 && isErrorType(sig.Results().At(0).Type())
+			})
+			for _, call := range sites {
+				name := p.calleeOf(call.Common()).Name
+				if arms[name] == nil {
+					arms[name] = map[string]bool{}
+					pos[name] = p.instrPos(call)
+				}
+				st := f.StateAt(call)
+				n := 0
+				if !st.top {
+					for a := range st.m {
+						if strings.HasPrefix(a, "msg=") {
+							arms[name][a] = true
+							n++
+						}
+					}
+				}
+				if n != 1 {
+					arms[name][fmt.Sprintf("?%d arms at %s", n, p.instrPos(call))] = true
+				}
+			}
+			var names []string
+			for n := range arms {
+				names = append(names, n)
+			}
+			sort.Strings(names)
+			for _, n := range names {
+				var as []string
+				for a := range arms[n] {
+					as = append(as, a)
+				}
+				sort.Strings(as)
+				want, pinned := setterArms[n]
+				okv := len(as) == 1 && strings.HasPrefix(as[0], "msg=")
+				detail := fmt.Sprintf("called under %v", as)
+				if pinned {
+					okv = strings.Join(as, " ") == strings.Join(want.arms, " ")
+					detail += fmt.Sprintf("; expected %v: %s", want.arms, want.why)
+				}
+				r.table(p, "C08.session-setter-arm", n+" in "+rn, pos[n], okv, detail)
+			}
+		}
+	}
+
 	// the effects have no other wire-reachable call site
 	r.rule("C08.effect-sites", "the four effects have exactly the expected number of call sites reachable from the four Respond methods and the HTTP handler")
 	r.floor("C08.effect-sites", 4)
